@@ -423,7 +423,12 @@ check_for_constructor(CPPScope *current_scope, CPPScope *global_scope) {
           if (ref_type != nullptr) {
             param_type = ref_type->_pointing_at->remove_cv();
 
-            if (class_name == param_type->get_simple_name()) {
+            // A class of the same simple name in another scope does not make
+            // this a copy constructor or copy assignment operator.
+            CPPStructType *param_struct = param_type->as_struct_type();
+            if (class_name == param_type->get_simple_name() &&
+                (param_struct == nullptr || scope->get_struct_type() == nullptr ||
+                 param_struct == scope->get_struct_type())) {
               if (flags & CPPFunctionType::F_constructor) {
                 if (ref_type->_value_category == CPPReferenceType::VC_rvalue) {
                   flags |= CPPFunctionType::F_move_constructor;
